@@ -176,7 +176,9 @@ pub struct HeaderName(Cow<'static, str>);
 impl HeaderName {
     /// Creates a new header name
     pub fn new_from_ascii(ascii: String) -> Result<Self, InvalidHeaderName> {
-        if !ascii.is_empty() && ascii.len() <= 76 && ascii.is_ascii() && !ascii.contains([':', ' '])
+        if !ascii.is_empty()
+            && ascii.len() <= 76
+            && ascii.bytes().all(|b| matches!(b, 33..=126) && b != b':')
         {
             Ok(Self(Cow::Owned(ascii)))
         } else {
@@ -198,8 +200,7 @@ impl HeaderName {
         let bytes = ascii.as_bytes();
         let mut i = 0;
         while i < bytes.len() {
-            static_assert!(bytes[i].is_ascii());
-            static_assert!(bytes[i] != b' ');
+            static_assert!(bytes[i] >= 33 && bytes[i] <= 126);
             static_assert!(bytes[i] != b':');
 
             i += 1;
